@@ -31,9 +31,9 @@ IR_B = [_G + x for x in ("ir_padding", "ir_writeFixed", "ir_writeFixedDef", "ir_
 IR_C = [_G + x for x in ("ir_writeNums", "ir_writeFixeds", "ir_writeFixedsDef", "ir_writeVstrs", "ir_writeObjs")]
 IR_D = [_G + x for x in ("ir_readNums", "ir_readFixeds", "ir_readFixedsDef", "ir_readVstrs", "ir_readObjs")]
 IR_E = [_G + x for x in ("ir_crc16", "ir_crc32", "ir_sse", "ir_szse")]
-IR_TIE = [_G + x for x in ("encOp_ir", "encOp_ir_default", "decOp_ir", "cks_ir")]
+IR_TIE = [_G + x for x in ("encOp_ir", "encOp_ir_default", "decOp_ir", "cks_ir")] + ["FinProto.Obl.encOp_ir_repo", "FinProto.Obl.decOp_ir_repo", "FinProto.Obl.cks_ir_repo"]
 IR_THEOREMS = ["FinProto.Obl.ir_repo", "FinProto.Obl.ir_calls", "FinProto.Obl.ir_calls_cover"] + IR_A + IR_B + IR_C + IR_D + IR_E + IR_TIE
-IR_DEC = IR_D + [_G + "decOp_ir"]      # proved in Props/GoIR_D.lean / GoIRTieDec.lean
+IR_DEC = IR_D + [_G + "decOp_ir", "FinProto.Obl.decOp_ir_repo"]      # proved in Props/GoIR_D.lean / GoIRTieDec.lean
 
 
 def ir_present(lean_dir, thms):
@@ -45,7 +45,7 @@ def ir_present(lean_dir, thms):
 
 PROPS = {
     "C01": {
-        "ir_theorems": [_G + "encOp_ir", _G + "encOp_ir_default", _G + "decOp_ir"],
+        "ir_theorems": [_G + "encOp_ir", _G + "encOp_ir_default", _G + "decOp_ir", "FinProto.Obl.encOp_ir_repo", "FinProto.Obl.decOp_ir_repo"],
         "theorems": ["FinProto.Obl.C01_mirror", "FinProto.Obl.C01_keys", "FinProto.Obl.C01_widths", "FinProto.Obl.C01_no_unrecognised_statement", "FinProto.Obl.C01_repo", "FinProto.Obl.C01_api", "FinProto.Obl.C01_same", "FinProto.roundtrip", "FinProto.enc_canon_val", "FinProto.enc_canon_val_frame"],
         "aspects": {**ENC_ALL, **DEC_ALL},
         "rule": VALUES + "Each canonical value is encoded by the real library and by the model, the produced bytes (+ random trailing "
@@ -54,7 +54,7 @@ PROPS = {
         "assumptions": ["canonical domain as stated in the property; absent and empty lists are identified"],
     },
     "C02": {
-        "ir_theorems": [_G + "encOp_ir", _G + "encOp_ir_default", _G + "decOp_ir"],
+        "ir_theorems": [_G + "encOp_ir", _G + "encOp_ir_default", _G + "decOp_ir", "FinProto.Obl.encOp_ir_repo", "FinProto.Obl.decOp_ir_repo"],
         "theorems": ["FinProto.Obl.C02_types", "FinProto.Obl.C02_tables", "FinProto.Obl.C02_repo", "FinProto.Obl.C02_decode", "FinProto.enc_eq_render",
                      "FinProto.encode_eq_render", "FinProto.render_table_equiv", "FinProto.padOrCut_eq_writeFixed"],
         "aspects": {"penc": [0, 1], "pdec": [0, 1, 2]},
@@ -65,7 +65,7 @@ PROPS = {
                         "present in the generator's output at that commit is invisible to this property"],
     },
     "C03": {
-        "ir_theorems": IR_A + IR_C + IR_D + [_G + "encOp_ir", _G + "decOp_ir"],
+        "ir_theorems": IR_A + IR_C + IR_D + [_G + "encOp_ir", _G + "decOp_ir", "FinProto.Obl.encOp_ir_repo", "FinProto.Obl.decOp_ir_repo"],
         "theorems": ["FinProto.Obl.C03_prims", "FinProto.Obl.C03_messages", "FinProto.Obl.C03_no_unrecognised_statement", "FinProto.Obl.C03_scalar", "FinProto.toE_le_eq_reverse_be", "FinProto.writeNums_ok", "FinProto.writeVstr_ok", "FinProto.writeFixeds_ok", "FinProto.writeVstrs_ok", "FinProto.writeNums_le_be", "FinProto.writeNums_is", "FinProto.readNums_is", "FinProto.writeVstrs_is", "FinProto.readVstrs_is", "FinProto.writeFixeds_is", "FinProto.readFixeds_is", "FinProto.writeNums_mixed_differs", "FinProto.writeVstr_le_be", "FinProto.writeFixeds_le_be", "FinProto.writeVstrs_le_be",
                      "FinProto.Obl.C03_nosvc", "FinProto.encodeNS_spec", "FinProto.encFrameNS_spec"],
         "aspects": {**ENC_BYTES, **DEC_ALL, "encns": [0, 1]},
@@ -82,14 +82,14 @@ PROPS = {
                 "wire, the object's field and an independent count must agree; re-encode after a size-preserving change.",
     },
     "C05": {
-        "ir_theorems": [_G + "cks_ir"],
+        "ir_theorems": [_G + "cks_ir", "FinProto.Obl.cks_ir_repo"],
         "theorems": ["FinProto.Obl.C05_frames_recognised", "FinProto.Obl.C05_repo", "FinProto.Obl.C05_calc_bodies", "FinProto.Obl.C05_sse_alg", "FinProto.Obl.C05_szse_alg", "FinProto.Obl.C05_crc32_alg", "FinProto.frame_cks_exact", "FinProto.frame_shape"],
         "aspects": {**ENC_ALL},
         "rule": "as C04 for the 3 checksummed frames; the trailer and the object's field must equal an independent byte sum / bitwise CRC-32 of "
                 "exactly this frame's bytes (corrected length included, earlier buffer content excluded), incl. frames > 1 KiB of heavy bytes.",
     },
     "C06": {
-        "ir_theorems": [_G + "encOp_ir", _G + "encOp_ir_default"],
+        "ir_theorems": [_G + "encOp_ir", _G + "encOp_ir_default", "FinProto.Obl.encOp_ir_repo"],
         "theorems": ["FinProto.Obl.C06_no_unrecognised_statement", "FinProto.Obl.C06_mirror", "FinProto.Obl.C06_ctxFree", "FinProto.Obl.C06_append_only", "FinProto.Obl.C06_context_free", "FinProto.Obl.C06_idempotent", "FinProto.Obl.C06_concat", "FinProto.ctxFree_encTy", "FinProto.enc_idempotent", "FinProto.enc_concat"],
         "aspects": {**ENC_ALL},
         "rule": VALUES + "every type, shuffled so that messages with different pad bytes / algorithms follow each other in one process; "
@@ -97,14 +97,14 @@ PROPS = {
                 "buffer; a 400-message sequence into one partially consumed buffer == concatenation.",
     },
     "C07": {
-        "ir_theorems": [_G + "decOp_ir"],
+        "ir_theorems": [_G + "decOp_ir", "FinProto.Obl.decOp_ir_repo"],
         "theorems": ["FinProto.Obl.C07_mirror", "FinProto.Obl.C07_prefix", "FinProto.Obl.C07_repo", "FinProto.Obl.C07_stream", "FinProto.obl_decTy", "FinProto.dec_extend", "FinProto.stream", "FinProto.dec_stream"],
         "aspects": {**DEC_ALL},
         "rule": VALUES + "each encoding followed by {0, 1..15, 16..80} arbitrary bytes: consumed == message length, rest untouched; a stream "
                 "of mixed messages recovered by successive decodes from one buffer.",
     },
     "C08": {
-        "ir_theorems": [_G + "encOp_ir", _G + "encOp_ir_default", _G + "decOp_ir"],
+        "ir_theorems": [_G + "encOp_ir", _G + "encOp_ir_default", _G + "decOp_ir", "FinProto.Obl.encOp_ir_repo", "FinProto.Obl.decOp_ir_repo"],
         "theorems": ["FinProto.Obl.C08_mirror", "FinProto.Obl.C08_framesTop", "FinProto.Obl.C08_repo", "FinProto.Obl.C08_frames", "FinProto.Obl.C08_frames_iff", "FinProto.dec_enc", "FinProto.dec_enc_frame", "FinProto.writeFixed_trim"],
         "aspects": {**DEC_ALL, **ENC_ALL},
         "rule": "valid encodings of all types with pad/NUL/space/0xFF/random bytes sprinkled over them (accepted byte strings the encoder "
@@ -133,7 +133,7 @@ PROPS = {
         "assumptions": ["the model counts requested bytes; the Go allocator's rounding and GC are outside it"],
     },
     "C11": {
-        "ir_theorems": [_G + "decOp_ir"],
+        "ir_theorems": [_G + "decOp_ir", "FinProto.Obl.decOp_ir_repo"],
         "theorems": ["FinProto.Obl.C11_mirror", "FinProto.Obl.C11_repo", "FinProto.truncated_rejected", "FinProto.dec_truncated_not_ok", "FinProto.dec_no_panic"],
         "aspects": {**DEC_CLASS},
         "rule": "every cut position 0..len-1 of valid encodings of all types and all keys (sampled for encodings > 600 bytes in the quick tier), "
@@ -154,7 +154,7 @@ PROPS = {
                 "runes); reads of arbitrary N-byte fields; exhaustive for N<=2 over strings of length <=2 (<=3 thorough) over {pad,'a',NUL,0xC3}.",
     },
     "C14": {
-        "ir_theorems": IR_E + [_G + "cks_ir"],
+        "ir_theorems": IR_E + [_G + "cks_ir", "FinProto.Obl.cks_ir_repo"],
         "theorems": ["FinProto.Obl.C14_calc_bodies", "FinProto.crc16_template_is", "FinProto.sse_template_is", "FinProto.szse_template_is", "FinProto.sseGo_eq", "FinProto.sseGo_lt", "FinProto.szseGo_eq", "FinProto.szseGo_lt", "FinProto.crc16Go_eq_modbus", "FinProto.crc32Go_eq_ieee"],
         "aspects": {**OTHER},
         "rule": "4 algorithms x all byte strings of length <= 2 against independent references (<= 3 in the thorough tier), random lengths to "
